@@ -342,8 +342,10 @@ func unlockPairing(c *Ctx) {
 		key := fmt.Sprintf("%s|undelegate%d", fn(f), i)
 		x := w.ExprOf(ue.Call.Common().Args[3])
 		whoE := w.ExprOf(ue.Call.Common().Args[2])
-		// one unlock site per way the undelegated amount is instantiated by the callers (a helper shared by both branches counts twice)
-		n += len(w.OriginsUp(f, x, 4))
+		// one unlock site per way the undelegated amount is instantiated by the callers (a helper shared by both branches
+		// counts twice), and per way a branch beforehand chooses it (`switch verdict { case fee: x, a = ...; case all: x, a = ... }`)
+		insts := ir.PhiInstances(ue.Call.Common().Args[3])
+		n += len(w.OriginsUp(f, x, 4)) * len(insts)
 		isDec := callReaching(c, f, func(e ir.Effect) bool { return e.Kind == "StoreWrite" && e.Section == secLocked })
 		isSpent := callReaching(c, f, func(e ir.Effect) bool { return e.Kind == "StoreWrite" && e.Section == secSpent })
 		// after the undelegate, every success return passes a decrement and a spent increment
@@ -374,19 +376,22 @@ func unlockPairing(c *Ctx) {
 					continue
 				}
 				addrE := w.ExprOf(args[len(args)-2])
-				amt := w.ExprOf(args[len(args)-1])
-				// judged in the callers' terms: lift the four expressions together along every call chain
-				tup := &ir.Expr{Op: "tuple", Args: []*ir.Expr{x, amt, whoE, addrE}}
 				okAll, detail := true, ""
-				for _, up := range w.OriginsUp(f, tup, 4) {
-					if up.E.Op != "tuple" || len(up.E.Args) != 4 {
-						okAll, detail = false, "cannot instantiate the amounts at the callers"
-						break
-					}
-					ux, uamt, uwho, uaddr := up.E.Args[0], up.E.Args[1], up.E.Args[2], up.E.Args[3]
-					if !(uaddr.String() == uwho.String() && amountMatches(c, uamt, ux)) {
-						okAll = false
-						detail = fmt.Sprintf("undelegated %s to %s; booked %s for %s (in %s)", ux, uwho, uamt, uaddr, fn(up.Top))
+				for _, inst := range insts {
+					xk := w.ExprOf(inst.Value(ue.Call.Common().Args[3]))
+					amt := w.ExprOf(inst.Value(args[len(args)-1]))
+					// judged in the callers' terms: lift the four expressions together along every call chain
+					tup := &ir.Expr{Op: "tuple", Args: []*ir.Expr{xk, amt, whoE, addrE}}
+					for _, up := range w.OriginsUp(f, tup, 4) {
+						if up.E.Op != "tuple" || len(up.E.Args) != 4 {
+							okAll, detail = false, "cannot instantiate the amounts at the callers"
+							break
+						}
+						ux, uamt, uwho, uaddr := up.E.Args[0], up.E.Args[1], up.E.Args[2], up.E.Args[3]
+						if !(uaddr.String() == uwho.String() && amountMatches(c, uamt, ux)) {
+							okAll = false
+							detail = fmt.Sprintf("undelegated %s to %s; booked %s for %s (in %s)", ux, uwho, uamt, uaddr, fn(up.Top))
+						}
 					}
 				}
 				r.Require(okAll, "A3.unlock-pairing", key+"|amount|"+siteName(c, in), pos(c, in), "the books are adjusted for the same account and by the undelegated amount (or its fee-denomination part)", detail)
